@@ -32,15 +32,26 @@ import (
 )
 
 const (
-	c02AloneEnv      = "C02_ALONE_JOB"
-	c02AloneMarker   = "C02-ALONE-RESULT "
-	c02AloneCPU      = 150              // CPU seconds the worker may use for one case (a case needs milliseconds)
-	c02AloneWall     = 30 * time.Minute // distant backstop: a worker that blocks without using the CPU
-	c02AloneExitCPU  = 97
-	c02StallCPU      = 120.0            // CPU seconds of this process inside ONE implementation call
-	c02StallWall     = 30 * time.Minute // backstop for a call that blocks
-	c02HistFirstPass = 20 * time.Second // first pass of a history; exceeding it only triggers the re-run alone
+	c02AloneEnv     = "C02_ALONE_JOB"
+	c02AloneMarker  = "C02-ALONE-RESULT "
+	c02AloneCPU     = 150              // CPU seconds the worker may use for one case (a case needs milliseconds)
+	c02AloneWall    = 30 * time.Minute // distant backstop: a worker that blocks without using the CPU
+	c02AloneExitCPU = 97
+	c02StallCPU     = 120.0            // CPU seconds of this process inside ONE implementation call
+	c02StallWall    = 30 * time.Minute // backstop for a call that blocks
 )
+
+// first pass of a history; exceeding it only triggers the re-run alone, so its value cannot change a
+// verdict (C02_HIST_FIRST_PASS_MS=0 sends every history through the worker: a self test of that path)
+var c02HistFirstPass = func() time.Duration {
+	if v := os.Getenv("C02_HIST_FIRST_PASS_MS"); v != "" {
+		var ms int
+		if _, err := fmt.Sscanf(v, "%d", &ms); err == nil {
+			return time.Duration(ms) * time.Millisecond
+		}
+	}
+	return 20 * time.Second
+}()
 
 // c02Job is one call into the implementation, in a form that can be handed to a worker process.
 type c02Job struct {
